@@ -16,6 +16,11 @@ def parseMember (t : String) : Option Member :=
   | 'e' :: r => if r.isEmpty then none else some (.echo (String.ofList r))
   | _ => none
 
+def parseWOp (t : String) : Option WOp :=
+  if t = "u" then some .unknownPid
+  else if t = "%" then some .unknownJobId
+  else t.toNat?.map .job
+
 def parseStmt (t : String) : Option Stmt :=
   match words t with
   | ["pf1"] => some (.pf true)
@@ -23,7 +28,7 @@ def parseStmt (t : String) : Option Stmt :=
   | "p" :: ms => (ms.mapM parseMember).map (.pipe false)
   | "np" :: ms => (ms.mapM parseMember).map (.pipe true)
   | "bg" :: ms => if ms.isEmpty then none else (ms.mapM parseMember).map .bg
-  | "wj" :: ks => if ks.isEmpty then none else (ks.mapM (fun (k : String) => k.toNat?)).map .wj
+  | "wj" :: ks => if ks.isEmpty then none else (ks.mapM parseWOp).map .wj
   | ["w"] => some .w
   | ["wu"] => some .wu
   | ["g", n] => n.toNat?.map .g
